@@ -125,8 +125,8 @@ def runCase (args : List String) : IO String := do
           let spec := sortSpec lt combf blocks
           let hs := hashes l spec
           if detail = "1" then
-            match (if mode = "retout" then codeSortRet lt combf (fun _ => 0) cfg lazyMem blocks
-                   else codeSort lt combf (fun _ => 0) cfg lazyMem blocks) with
+            match (if mode = "retout" then codeSortRet lt combf (fun _ _ _ => 0) cfg lazyMem blocks
+                   else codeSort lt combf (fun _ _ _ => 0) cfg lazyMem blocks) with
             | .error e => return s!"M error={errName e}"
             | .ok (out, passes, mret) =>
               let ho := hashes l out
